@@ -309,7 +309,9 @@ class PageBreakCalculator(BaseModel):
                 prev_cumulative = col_widths[width_idx - 1] if width_idx > 0 else 0
                 col_width = current_cumulative - prev_cumulative
                 col_name = df.columns[col_idx]
-                cell_value = str(df[col_name][row_idx])
+                raw_value = df[col_name][row_idx]
+                # A null is rendered as an empty cell, not as the text "None"
+                cell_value = "" if raw_value is None else str(raw_value)
 
                 # Font logic
                 actual_font_size = font_size
